@@ -89,6 +89,11 @@ func (s *Sink) AddPreV(variant, checker, caseType string, c Case, text string, b
 	s.addCommon(c, b, variant+"\x00"+text, text, nontrivial, vb)
 }
 
+// AddOracleOnly records a case that has no Layer A model (judged by the harness-side oracle only).
+func (s *Sink) AddOracleOnly(c Case, key string, b []byte, nontrivial bool) {
+	s.addCommon(c, b, "oracle-only\x00"+key, "", nontrivial, &variantBuf{checker: ""})
+}
+
 func (s *Sink) AddPre(c Case, text string, b []byte, nontrivial bool) {
 	s.addCommon(c, b, text, text, nontrivial, nil)
 }
@@ -138,6 +143,9 @@ func (s *Sink) addCommon(c Case, b []byte, keytext, text string, nontrivial bool
 	}
 	if len(st.Samples) < 3 && nontrivial {
 		st.Samples = append(st.Samples, c)
+	}
+	if vb != nil && vb.checker == "" {
+		return // oracle-only case
 	}
 	if vb != nil {
 		vb.cur = append(vb.cur, text)
